@@ -10,6 +10,7 @@ import (
 	"github.com/libsv/go-bt/v2"
 	"github.com/libsv/go-bt/v2/bscript"
 	"github.com/libsv/go-bt/v2/bscript/interpreter"
+	"github.com/libsv/go-bt/v2/sighash"
 	"github.com/libsv/go-bt/v2/unlocker"
 	"pgregory.net/rapid"
 
@@ -33,6 +34,7 @@ type GIn struct {
 	Owner int     `json:"owner"` // index into Keys; -1: a foreign output, the getter's unlocker declines
 	Insc  bool    `json:"insc"`  // the spent output is a P2PKH inscription
 	Wrap  bool    `json:"wrap"`  // the unlocker is a caller's type delegating to unlocker.Simple
+	HSM   bool    `json:"hsm"`   // (tenth round) a caller's unlocker that signs itself and assembles the script with bscript.NewP2PKHUnlockingScript
 	Sats  uint64  `json:"sats"`
 	Data  pbt.Hex `json:"data,omitempty"`
 }
@@ -42,6 +44,11 @@ type GCase struct {
 	Keys []pbt.Hex `json:"keys"`
 	Ins  []GIn     `json:"ins"`
 	NOut int       `json:"nout"`
+	// (tenth round) all UTXOs of one owner hand ONE locking-script object to FromUTXOs (a wallet that
+	// keeps one script per address); Types, when set, are signed per input through FillInput (legacy
+	// types without the FORKID bit included) instead of FillAllInputs
+	ShareLock bool  `json:"sharelock"`
+	Types     []int `json:"types,omitempty"`
 }
 
 type decliner struct{}
@@ -54,6 +61,37 @@ type wrapper struct{ inner bt.Unlocker }
 
 func (w wrapper) UnlockingScript(ctx context.Context, tx *bt.Tx, up bt.UnlockerParams) (*bscript.Script, error) {
 	return w.inner.UnlockingScript(ctx, tx, up)
+}
+
+// hsmUnlocker is what a signer outside the library looks like: it asks the transaction for the
+// digest, signs, and lets the library's exported helper assemble the unlocking script. Signature and
+// public key live next to each other in one buffer, as a device would return them.
+type hsmUnlocker struct {
+	priv   *bec.PrivateKey
+	damage *string
+}
+
+func (h hsmUnlocker) UnlockingScript(_ context.Context, tx *bt.Tx, up bt.UnlockerParams) (*bscript.Script, error) {
+	if up.SigHashFlags == 0 {
+		up.SigHashFlags = sighash.AllForkID
+	}
+	sh, err := tx.CalcInputSignatureHash(up.InputIdx, up.SigHashFlags)
+	if err != nil {
+		return nil, err
+	}
+	sig, err := h.priv.Sign(sh)
+	if err != nil {
+		return nil, err
+	}
+	der, pub := sig.Serialise(), h.priv.PubKey().SerialiseCompressed()
+	buf := append(append(make([]byte, 0, len(der)+len(pub)+8), der...), pub...)
+	buf = append(buf, 0xc5, 0x3a, 0x96, 0x69, 0x5c, 0xa3, 0x0f, 0xf0)
+	sigW, pubW := buf[:len(der)], buf[len(der):len(der)+len(pub)] // windows: the signature's capacity runs over the key
+	s, err := bscript.NewP2PKHUnlockingScript(pubW, sigW, up.SigHashFlags)
+	if !bytes.Equal(buf[:len(der)], der) || !bytes.Equal(buf[len(der):len(der)+len(pub)], pub) || !bytes.Equal(buf[len(der)+len(pub):], []byte{0xc5, 0x3a, 0x96, 0x69, 0x5c, 0xa3, 0x0f, 0xf0}) {
+		*h.damage = fmt.Sprintf("bscript.NewP2PKHUnlockingScript changed the buffer holding its arguments (signature||key||tail): %x became %x", append(append(append([]byte{}, der...), pub...), 0xc5), buf)
+	}
+	return s, err
 }
 
 type walletGetter struct {
@@ -91,6 +129,9 @@ func checkGetters(ctx *pbt.Ctx, c GCase) error {
 	g := &walletGetter{byScript: map[string]bt.Unlocker{}}
 	tx := bt.NewTx()
 	var scripts [][]byte
+	shared := map[string]*bscript.Script{}
+	sharedUsed := false
+	damage := ""
 	signed, declinedBeforeSigned := 0, false
 	seenDecline := false
 	for i, in := range c.Ins {
@@ -112,11 +153,23 @@ func checkGetters(ctx *pbt.Ctx, c GCase) error {
 		scripts = append(scripts, ls)
 		id := make([]byte, 32)
 		id[0], id[31] = byte(i+1), 0x33
-		if err := tx.FromUTXOs(&bt.UTXO{TxID: id, Vout: uint32(i), Satoshis: in.Sats, LockingScript: bscript.NewFromBytes(append([]byte{}, ls...))}); err != nil {
+		lsObj := bscript.NewFromBytes(append([]byte{}, ls...))
+		if c.ShareLock {
+			if o, ok := shared[string(ls)]; ok {
+				lsObj = o
+				sharedUsed = true
+			} else {
+				shared[string(ls)] = lsObj
+			}
+		}
+		if err := tx.FromUTXOs(&bt.UTXO{TxID: id, Vout: uint32(i), Satoshis: in.Sats, LockingScript: lsObj}); err != nil {
 			return fmt.Errorf("FromUTXOs failed: %v", err)
 		}
 		if in.Owner >= 0 {
 			var u bt.Unlocker = &unlocker.Simple{PrivateKey: privs[in.Owner]}
+			if in.HSM {
+				u = hsmUnlocker{privs[in.Owner], &damage}
+			}
 			if in.Wrap {
 				u = wrapper{u}
 			}
@@ -136,11 +189,35 @@ func checkGetters(ctx *pbt.Ctx, c GCase) error {
 	for k := 0; k < c.NOut; k++ {
 		tx.AddOutput(&bt.Output{Satoshis: 1 + uint64(k), LockingScript: bscript.NewFromBytes(p2pkh(pubs[0]))})
 	}
-	if err := tx.FillAllInputs(context.Background(), g); err != nil {
-		return fmt.Errorf("FillAllInputs with a getter that signs %d of %d inputs failed: %v", signed, len(c.Ins), err)
+	types := make([]int, len(c.Ins))
+	for i := range types {
+		types[i] = 0x41
 	}
-	if g.asked != len(c.Ins) {
-		return fmt.Errorf("FillAllInputs asked the getter %d times for %d inputs", g.asked, len(c.Ins))
+	if len(c.Types) == 0 {
+		if err := tx.FillAllInputs(context.Background(), g); err != nil {
+			return fmt.Errorf("FillAllInputs with a getter that signs %d of %d inputs failed: %v", signed, len(c.Ins), err)
+		}
+		if g.asked != len(c.Ins) {
+			return fmt.Errorf("FillAllInputs asked the getter %d times for %d inputs", g.asked, len(c.Ins))
+		}
+	} else {
+		for i, in := range c.Ins {
+			if in.Owner < 0 {
+				continue
+			}
+			ht := c.Types[i%len(c.Types)] & 0xc3
+			if ht&0x03 == 0 {
+				ht |= 1
+			}
+			types[i] = ht
+			u, _ := g.Unlocker(context.Background(), tx.Inputs[i].PreviousTxScript)
+			if err := tx.FillInput(context.Background(), u, bt.UnlockerParams{InputIdx: uint32(i), SigHashFlags: sighash.Flag(ht)}); err != nil {
+				return fmt.Errorf("FillInput(%d, %s) failed: %v", i, typeName(ht), err)
+			}
+		}
+	}
+	if damage != "" {
+		return fmt.Errorf("%s", damage)
 	}
 	// declined inputs get a placeholder so that the transaction serialises, as a co-signer would add its own script later
 	for i, in := range c.Ins {
@@ -160,13 +237,24 @@ func checkGetters(ctx *pbt.Ctx, c GCase) error {
 			return fmt.Errorf("the signed transaction does not parse: %v", err)
 		}
 		opts := []interpreter.ExecutionOptionFunc{interpreter.WithTx(parsed, i, &bt.Output{Satoshis: in.Sats, LockingScript: bscript.NewFromBytes(append([]byte{}, scripts[i]...))}),
-			interpreter.WithForkID(), interpreter.WithAfterGenesis()}
+			interpreter.WithAfterGenesis()}
+		if types[i]&0x40 != 0 {
+			opts = append(opts, interpreter.WithForkID())
+		}
 		if err := interpreter.NewEngine().Execute(opts...); err != nil {
-			return fmt.Errorf("input %d of %d (key %d, signed through FillAllInputs with a caller-implemented getter; owners per input %v, -1 = declined) is rejected against its real spent output: %v\n spent script %x\n unlocking script %x",
-				i, len(c.Ins), in.Owner, owners(c), err, scripts[i], []byte(*parsed.Inputs[i].UnlockingScript))
+			return fmt.Errorf("input %d of %d (key %d, type %s, signed through a caller-implemented getter; owners per input %v, -1 = declined; HSM-style unlocker: %v; one locking-script object per owner: %v) is rejected against its real spent output: %v\n spent script %x\n unlocking script %x",
+				i, len(c.Ins), in.Owner, typeName(types[i]), owners(c), in.HSM, c.ShareLock, err, scripts[i], []byte(*parsed.Inputs[i].UnlockingScript))
 		}
 	}
 	ctx.Labelf("keys=%d", len(c.Keys))
+	ctx.Labelf("shared_lock_object_used=%v", sharedUsed)
+	ctx.Labelf("legacy_types=%v", len(c.Types) > 0)
+	for _, in := range c.Ins {
+		if in.HSM && in.Owner >= 0 {
+			ctx.Label("hsm_unlocker")
+			break
+		}
+	}
 	ctx.Labelf("declined_before_signed=%v", declinedBeforeSigned)
 	ctx.Labelf("signed=%d", min(signed, 4))
 	if declinedBeforeSigned || len(c.Keys) >= 2 && signed >= 2 {
@@ -197,7 +285,7 @@ func TestGetters(t *testing.T) {
 			}
 			n := rapid.IntRange(1, 6).Draw(t, "nin")
 			for i := 0; i < n; i++ {
-				in := GIn{Owner: rapid.IntRange(-1, nk-1).Draw(t, "owner"), Insc: rapid.IntRange(0, 3).Draw(t, "insc") == 0, Wrap: rapid.IntRange(0, 3).Draw(t, "wrap") == 0,
+				in := GIn{Owner: rapid.IntRange(-1, nk-1).Draw(t, "owner"), Insc: rapid.IntRange(0, 3).Draw(t, "insc") == 0, Wrap: rapid.IntRange(0, 3).Draw(t, "wrap") == 0, HSM: rapid.IntRange(0, 2).Draw(t, "hsm") == 0,
 					Sats: uint64(rapid.IntRange(0, 100000).Draw(t, "sats"))}
 				if in.Insc {
 					in.Data = gen.Bytes(t, rapid.IntRange(0, 40).Draw(t, "dl"), "data")
@@ -205,6 +293,12 @@ func TestGetters(t *testing.T) {
 				c.Ins = append(c.Ins, in)
 			}
 			c.NOut = rapid.IntRange(0, 3).Draw(t, "nout")
+			c.ShareLock = rapid.Bool().Draw(t, "sharelock")
+			if rapid.IntRange(0, 2).Draw(t, "pertype") == 0 {
+				for i := 0; i < n; i++ {
+					c.Types = append(c.Types, rapid.SampledFrom([]int{0x01, 0x02, 0x03, 0x81, 0x82, 0x83, 0x41, 0x42, 0x43, 0xc1, 0xc2, 0xc3}).Draw(t, "type"))
+				}
+			}
 			return c
 		},
 		Check: checkGetters,
